@@ -33,6 +33,9 @@ MANIFEST = dict(
           "k = (1+cos i)/2 for triangle-feasible distances; node passages use the E with "
           "tan(v/2) = sqrt((1+e)/(1-e)) tan(E/2), v = -omega or 180-omega (mod 360), t - T = M/n, the orbit equation "
           "r(1+e cos v) = a(1-e^2) holds, and kepler_equation at n(t-T) returns that E to (pi/2)/2^34 rad. "
+          "Also: ValueError for every e >= 1 (kepler_equation) and every r <= 0 or a <= 0 (velocity); the exact value of "
+          "length_orbit at e = 0.6 (pins the three coefficients); 0.9856076686 = Gaussian constant in degrees to 1e-10; the values "
+          "(incl. negative ones) of the node anomaly for omega in [0, 360). "
           "The model is tied to /repo by running its binary64 instantiation against the real code bit for bit; "
           "every clause is also evaluated on the real code with the tolerances of the statement. Numerical only (no theorem): 'continuous across the switch' is read as a jump below 2e-4 "
           "(the proved jump is 1.44e-4, the accuracy of the two approximations); the conditioning of the node-passage "
